@@ -22,7 +22,7 @@ LEVEL_NOTE = (
 )
 TECHNIQUE = "property-based testing (Hypothesis), operation sequences on a shared object vs dense-matrix reference + coverage-guided fuzzing stage (atheris/libFuzzer driving the same strategy and oracle)"
 BUDGET = {"quick": 4000, "thorough": 100000}
-FUZZ = {"quick": 3200, "thorough": 160000}  # executions of the coverage-guided stage (vlib/fuzz.py)
+FUZZ = {"quick": 3200, "thorough": 32000}  # executions of the coverage-guided stage (vlib/fuzz.py)
 RULE = (
     "case = (n, k, vector class in {orthonormal, biorthogonal, general, near_hermitian}, real / complex / mixed-dtype data, list of 1-4 "
     "(unary-operation sequence, application) pairs all applied to the same projector object). Non-trivial = complex "
